@@ -182,21 +182,21 @@ type simMempool struct{ r *Replica }
 func (m *simMempool) CheckTx(tx tmtypes.Tx, cb func(*abci.Response), txInfo mempl.TxInfo) error {
 	return nil
 }
-func (m *simMempool) RemoveTxByKey(txKey tmtypes.TxKey) error                 { return nil }
+func (m *simMempool) RemoveTxByKey(txKey tmtypes.TxKey) error               { return nil }
 func (m *simMempool) ReapMaxBytesMaxGas(maxBytes, maxGas int64) tmtypes.Txs { return nil }
-func (m *simMempool) ReapMaxTxs(max int) tmtypes.Txs                         { return nil }
-func (m *simMempool) Lock()                                                  { m.r.MempoolLocked = true }
-func (m *simMempool) Unlock()                                                { m.r.MempoolLocked = false }
+func (m *simMempool) ReapMaxTxs(max int) tmtypes.Txs                        { return nil }
+func (m *simMempool) Lock()                                                 { m.r.MempoolLocked = true }
+func (m *simMempool) Unlock()                                               { m.r.MempoolLocked = false }
 func (m *simMempool) Update(h int64, txs tmtypes.Txs, res []*abci.ResponseDeliverTx, pre mempl.PreCheckFunc, post mempl.PostCheckFunc) error {
 	m.r.yield("mp.update")
 	return nil
 }
-func (m *simMempool) FlushAppConn() error         { return m.r.conns.Mempool().FlushSync() }
-func (m *simMempool) Flush()                      {}
+func (m *simMempool) FlushAppConn() error           { return m.r.conns.Mempool().FlushSync() }
+func (m *simMempool) Flush()                        {}
 func (m *simMempool) TxsAvailable() <-chan struct{} { return nil }
-func (m *simMempool) EnableTxsAvailable()         {}
-func (m *simMempool) Size() int                   { return 0 }
-func (m *simMempool) SizeBytes() int64            { return 0 }
+func (m *simMempool) EnableTxsAvailable()           {}
+func (m *simMempool) Size() int                     { return 0 }
+func (m *simMempool) SizeBytes() int64              { return 0 }
 
 // OpenReplica constructs a node on `root` exactly as the production node does (application,
 // ABCI connections, state from store or genesis, real handshake incl. replay).
